@@ -18,7 +18,7 @@ const TIME4_SZ = unsafe.Sizeof(Time4(0))
 
 func NowTS() Time4 {
 	// We don't need to worry about time-zone when using unix-timestamp.
-	return TimeToTime4(time.Now())
+	return TimeToTime4(verifNow())
 }
 
 func TimeToTime4(t time.Time) Time4 {
